@@ -305,7 +305,8 @@ class Scn:
         if k == "frd_stale" and out != ("raise", "ValueError"):
             return v("stale-data-accepted", f"_from_render_data_ with finalized data: {out}", got=M.res_sig(out))
         if not self.fired and out[0] == "raise" and not (
-                (k == "seekbad" and out[1] == "ValueError") or state_before == "closed" or k == "frd_stale"
+                (k == "seekbad" and out[1] == "ValueError") or k == "frd_stale"
+                or (state_before == "closed" and k in ("next", "seek0", "seekbad", "size", "close"))
                 or (self.cfg["n"] == 1 and k in ("iter", "frd") and out[1] == "ValueError")):   # not animated
             return v("exception", f"{k} raised {out[1]} without any fault", got=M.res_sig(out))
         return None
